@@ -349,7 +349,13 @@ func execC13(b []byte) vx.Verdict {
 	}
 	// ---- the complete history of status rewrites (hook, totally ordered per unit by the status file lock)
 	time.Sleep(600 * time.Millisecond)
-	if v := checkStatusLog(statusLog, filepath.Join(wa.DataDir, "na")); v != nil {
+	releaseAsked := map[string]bool{}
+	for _, u := range units {
+		if u.releaseAsked {
+			releaseAsked[u.id] = true
+		}
+	}
+	if v := checkStatusLog(statusLog, filepath.Join(wa.DataDir, "na"), releaseAsked); v != nil {
 		return *v
 	}
 	nontrivial := cancelBeforeFinish || overlappingSubmits >= 4
@@ -382,7 +388,12 @@ func stageOf(state int) int {
 // checkStatusLog verifies the monotonicity rules over every rewrite of every status record under dirPrefix.
 var knownHits = map[string]int{}
 
-func checkStatusLog(logFile, dirPrefix string) *vx.Verdict {
+// releaseAsked: units for which a release was requested. A record that a writer made after finding NO stored record (old
+// state -2: the status file had just been removed by the release) is then not part of the unit's reported history: it can
+// only come from an object of an earlier in-process incarnation of the node (the harness restarts workceptor inside one
+// process, so such objects and their goroutines stay alive; after a real restart they do not exist) racing with the removal
+// of the directory. What a release must leave behind is checked on disk and through the API, not here.
+func checkStatusLog(logFile, dirPrefix string, releaseAsked map[string]bool) *vx.Verdict {
 	f, err := os.Open(logFile)
 	if err != nil {
 		return nil
@@ -399,10 +410,13 @@ func checkStatusLog(logFile, dirPrefix string) *vx.Verdict {
 	sc.Buffer(make([]byte, 1<<20), 1<<20)
 	for sc.Scan() {
 		p := strings.Fields(sc.Text())
-		if len(p) != 6 || !strings.HasPrefix(p[1], dirPrefix) {
+		if len(p) < 6 || !strings.HasPrefix(p[1], dirPrefix) {
 			continue
 		}
 		pid, _ := strconv.Atoi(p[0])
+		if p[2] == "-2" && releaseAsked[filepath.Base(filepath.Dir(p[1]))] {
+			continue
+		}
 		ns, _ := strconv.Atoi(p[4])
 		nz, _ := strconv.ParseInt(p[5], 10, 64)
 		hist[p[1]] = append(hist[p[1]], rec{pid, ns, nz, sc.Text()})
@@ -413,12 +427,16 @@ func checkStatusLog(logFile, dirPrefix string) *vx.Verdict {
 			prev, cur := recs[i-1], recs[i]
 			trail := func() string {
 				var out []string
-				lo := i - 4
+				lo := i - 9
 				if lo < 0 {
 					lo = 0
 				}
 				for _, r := range recs[lo : i+1] {
-					out = append(out, fmt.Sprintf("pid %d -> state %d size %d", r.pid, r.newState, r.newSize))
+					detail := ""
+					if f := strings.SplitN(r.line, " ", 7); len(f) == 7 {
+						detail = " " + f[6]
+					}
+					out = append(out, fmt.Sprintf("pid %d -> state %d size %d%s", r.pid, r.newState, r.newSize, detail))
 				}
 				return strings.Join(out, "; ")
 			}
